@@ -243,3 +243,98 @@ pub proof fn lemma_n5_complete<CS: CLCiphersuite>(p: NISPSignaturePoK, cpk: CL03
     assert(v4 == t4);
     assert(v5 == t5);
 }
+
+
+/// the two cursors of the attribute walk: hidden positions seen = rank, revealed positions seen = k - rank
+pub proof fn lemma_n5_counts(bases: Seq<Integer>, s5: Seq<Integer>, msgs: Seq<CL03Message>, hid: Seq<usize>, c: int, n: int, k: int)
+    requires 0 <= k,
+    ensures n5_walk(bases, s5, msgs, hid, c, n, k).1 == rank_n5(hid, k), n5_walk(bases, s5, msgs, hid, c, n, k).2 == k - rank_n5(hid, k),
+    decreases k,
+{
+    if k > 0 { lemma_n5_counts(bases, s5, msgs, hid, c, n, k - 1); }
+}
+
+/// ... and both stay inside their lists: at a hidden position i the response index is < |hid|, at a revealed one the
+/// attribute index is < k - |hid| (ascending hidden set below k)
+pub proof fn lemma_n5_index_ok(hid: Seq<usize>, i: int, k: int)
+    requires strictly_sorted(hid), forall|t: int| 0 <= t < hid.len() ==> (#[trigger] hid[t]) < k, 0 <= i < k <= usize::MAX,
+    ensures
+        hid.contains(i as usize) ==> rank_n5(hid, i) < hid.len(),
+        !hid.contains(i as usize) ==> 0 <= i - rank_n5(hid, i) < k - hid.len(),
+{
+    lemma_rank_n5(hid, i);
+    if hid.contains(i as usize) {
+        let j = choose|j: int| 0 <= j < hid.len() && hid[j] == i as usize;
+        if j < rank_n5(hid, i) { assert(hid[j] < i); }
+    } else {
+        let e = Seq::<CL03Message>::empty();
+        lemma_rank_n5(hid, k);
+        if rank_n5(hid, k) < hid.len() { assert(hid[rank_n5(hid, k)] >= k); }
+        assert(rank_n5(hid, k) == hid.len());
+        lemma_rev_list(e, hid, i + 1, k);
+        lemma_rev_len(e, hid, k);
+        lemma_rev_len(e, hid, i + 1);
+        assert(rank_n5(hid, i + 1) == rank_n5(hid, i));
+    }
+}
+
+/// the attribute walk over unit bases is a unit
+pub proof fn lemma_n5_walk_unit(bases: Seq<Integer>, s5: Seq<Integer>, msgs: Seq<CL03Message>, hid: Seq<usize>, c: int, n: int, k: int)
+    requires n > 1, 0 <= k <= bases.len(), forall|i: int| 0 <= i < k ==> invertible(#[trigger] bases[i]@, n),
+    ensures igcd(n5_walk(bases, s5, msgs, hid, c, n, k).0, n) == 1,
+    decreases k,
+{
+    if k <= 0 { ax_gcd_one(n); } else {
+        lemma_n5_walk_unit(bases, s5, msgs, hid, c, n, k - 1);
+        let w = n5_walk(bases, s5, msgs, hid, c, n, k - 1);
+        if hid.contains((k - 1) as usize) {
+            ax_gcd_pow_mod(bases[k - 1]@, s5[w.1]@, n);
+            ax_gcd_mul(w.0, pow_mod(bases[k - 1]@, s5[w.1]@, n), n);
+        } else {
+            let mi = msgs[w.2].value@;
+            ax_gcd_pow_mod(bases[k - 1]@, mi + mi * c, n);
+            ax_gcd_mul(w.0, pow_mod(bases[k - 1]@, mi + mi * c, n), n);
+        }
+    }
+}
+
+/// the honest signature proof is well-formed: what the verifier's no-refusal run (n5_wf) needs, from what the prover's
+/// code establishes (same hypotheses as lemma_n5_complete, without the equations)
+pub proof fn lemma_n5_wf(p: NISPSignaturePoK, cpk: CL03CommitmentPublicKey, pk: CL03PublicKey, sig: CL03Signature,
+    bases: Seq<Integer>, msgs: Seq<CL03Message>, hid: Seq<usize>, w: int, rw: int, rx: int, re: int)
+    requires
+        pk.N@ > 1, cpk.N@ == pk.N@, 1 <= msgs.len() <= usize::MAX, msgs.len() <= bases.len(), msgs.len() <= cpk.g_bases@.len(),
+        strictly_sorted(hid), forall|t: int| 0 <= t < hid.len() ==> hid[t] < msgs.len(),
+        forall|i: int| 0 <= i < msgs.len() ==> invertible(#[trigger] bases[i]@, pk.N@),
+        forall|i: int| 0 <= i < msgs.len() ==> invertible(#[trigger] cpk.g_bases@[i]@, pk.N@),
+        invertible(cpk.h@, pk.N@), invertible(pk.b@, pk.N@), invertible(pk.c@, pk.N@), invertible(sig.v@, pk.N@),
+        p.Cx.value@ == (multi_prod(cpk.g_bases@, msgs, Seq::new(msgs.len(), |k: int| k as usize), pk.N@, msgs.len() as int) * pow_mod(cpk.h@, rx, pk.N@)) % pk.N@,
+        p.Cv.value@ == (sig.v@ * pow_mod(cpk.g_bases@[0]@, w, pk.N@)) % pk.N@,
+        p.Cw.value@ == (pow_mod(cpk.g_bases@[0]@, w, pk.N@) * pow_mod(cpk.h@, rw, pk.N@)) % pk.N@,
+        p.Ce.value@ == (pow_mod(cpk.g_bases@[0]@, sig.e@, pk.N@) * pow_mod(cpk.h@, re, pk.N@)) % pk.N@,
+        p.s_5@.len() == hid.len(),
+    ensures
+        n5_wf(p, cpk, pk, bases, rev_list(msgs, hid, msgs.len() as int), hid, msgs.len() as int),
+{
+    let n = pk.N@;
+    let cnt = msgs.len() as int;
+    let (g0, h) = (cpk.g_bases@[0]@, cpk.h@);
+    // one revealed attribute per position that is not hidden
+    lemma_rev_len(msgs, hid, cnt);
+    lemma_rank_n5(hid, cnt);
+    if rank_n5(hid, cnt) < hid.len() { assert(hid[rank_n5(hid, cnt)] >= cnt); }
+    assert(rank_n5(hid, cnt) == hid.len());
+    // the four commitments are units
+    ax_gcd_pow_mod(g0, w, n);
+    ax_gcd_mul(sig.v@, pow_mod(g0, w, n), n);
+    ax_gcd_mod(sig.v@ * pow_mod(g0, w, n), n);
+    lemma_commit_unit(g0, h, w, rw, n);
+    lemma_commit_unit(g0, h, sig.e@, re, n);
+    let all = Seq::new(msgs.len(), |k: int| k as usize);
+    lemma_multi_prod_all_is_pw(cpk.g_bases@, msgs, all, n, cnt);
+    assert forall|j: int| 0 <= j < cnt implies invertible(#[trigger] int_views(cpk.g_bases@)[j], n) by { assert(int_views(cpk.g_bases@)[j] == cpk.g_bases@[j]@); }
+    lemma_pw_unit(int_views(cpk.g_bases@), msg_views(msgs), n, cnt);
+    ax_gcd_pow_mod(h, rx, n);
+    ax_gcd_mul(pw_prod(int_views(cpk.g_bases@), msg_views(msgs), n, cnt), pow_mod(h, rx, n), n);
+    ax_gcd_mod(pw_prod(int_views(cpk.g_bases@), msg_views(msgs), n, cnt) * pow_mod(h, rx, n), n);
+}
